@@ -1,9 +1,5 @@
 SPECIFICATION Spec
-CONSTANTS Cases <- WalkCases
+CONSTANTS Cases <- MQuick
           GF = 4
           FPKeys = {}
-          MCN = 4
-          MCA = 3
-          MCStops = {0, 2}
-          MCTrks = {"map", "none"}
 INVARIANTS StackIsRecursive EmitSafe EmitOnce NoFalseNegative ChainShape CountRight
